@@ -372,6 +372,99 @@ def step (s : Store) : Ev → Store
 
 def run (s : Store) (evs : List Ev) : Store := evs.foldl step s
 
+
+/-! ## Classification of events (used to state "the most recent attempt") -/
+
+def resultOf {α} : Except String α → Result
+  | .ok _ => .success
+  | .error e => .failure e
+
+/-- The exchange an event records for parent `p` of `ca` (`none`: not a recorded attempt to talk
+to a parent; the refused check of a parent that is only being added is not recorded). -/
+def Ev.parentAttempt? : Ev → Option (String × String × Exchange)
+  | .parentList ca p uri _ (.ok _) now => some (ca, p, ⟨now, uri, .success⟩)
+  | .parentList ca p uri true (.error e) now => some (ca, p, ⟨now, uri, .failure e⟩)
+  | .parentRevokes ca p uri r now => some (ca, p, ⟨now, uri, resultOf r⟩)
+  | .parentCerts ca p uri r now => some (ca, p, ⟨now, uri, resultOf r⟩)
+  | _ => none
+
+/-- The exchange an event records for the repository of `ca`. -/
+def Ev.repoAttempt? : Ev → Option (String × Exchange)
+  | .repoList ca uri r now => some (ca, ⟨now, uri, resultOf r⟩)
+  | .repoDelta ca uri _ r now => some (ca, ⟨now, uri, resultOf r⟩)
+  | _ => none
+
+/-- The exchange an event records for child `c` of `ca`. -/
+def Ev.childAttempt? : Ev → Option (String × String × ChildExchange)
+  | .childRequest ca c agent r now => some (ca, c, ⟨now, resultOf r, agent⟩)
+  | _ => none
+
+def Ev.removesCa (e : Ev) (ca : String) : Bool :=
+  match e with
+  | .caRemove ca' => ca' = ca
+  | _ => false
+
+def Ev.removesParent (e : Ev) (ca p : String) : Bool :=
+  match e with
+  | .parentRemove ca' p' => ca' = ca && p' = p
+  | _ => e.removesCa ca
+
+def Ev.removesChild (e : Ev) (ca c : String) : Bool :=
+  match e with
+  | .childRemove ca' c' => ca' = ca && c' = c
+  | _ => e.removesCa ca
+
+/-- The event is about parent `p` of `ca`: an exchange with it or its removal. -/
+def Ev.touchesParent (e : Ev) (ca p : String) : Bool :=
+  match e with
+  | .parentList ca' p' _ _ _ _ => ca' = ca && p' = p
+  | .parentRevokes ca' p' _ _ _ => ca' = ca && p' = p
+  | .parentCerts ca' p' _ _ _ => ca' = ca && p' = p
+  | _ => e.removesParent ca p
+
+/-- The event is about the repository of `ca`. -/
+def Ev.touchesRepo (e : Ev) (ca : String) : Bool :=
+  match e with
+  | .repoList ca' _ _ _ => ca' = ca
+  | .repoDelta ca' _ _ _ _ => ca' = ca
+  | _ => e.removesCa ca
+
+/-- The event is about child `c` of `ca`: a request, the suspension marker, or removal. -/
+def Ev.touchesChild (e : Ev) (ca c : String) : Bool :=
+  match e with
+  | .childRequest ca' c' _ _ _ => ca' = ca && c' = c
+  | .childSuspended ca' c' _ => ca' = ca && c' = c
+  | _ => e.removesChild ca c
+
+/-- A successful exchange with parent `p` of `ca`. -/
+def Ev.parentSuccess (e : Ev) (ca p : String) : Bool :=
+  match e.parentAttempt? with
+  | some (ca', p', x) => ca' = ca && p' = p && x.result.wasSuccess
+  | none => false
+
+/-- A successful list query to parent `p` of `ca` (the only exchange that returns entitlements). -/
+def Ev.parentListSuccess (e : Ev) (ca p : String) : Bool :=
+  match e with
+  | .parentList ca' p' _ _ (.ok _) _ => ca' = ca && p' = p
+  | _ => false
+
+def Ev.repoSuccess (e : Ev) (ca : String) : Bool :=
+  match e.repoAttempt? with
+  | some (ca', x) => ca' = ca && x.result.wasSuccess
+  | none => false
+
+/-- A successful request of child `c` of `ca`. -/
+def Ev.childSuccess (e : Ev) (ca c : String) : Bool :=
+  match e.childAttempt? with
+  | some (ca', c', x) => ca' = ca && c' = c && x.result.wasSuccess
+  | none => false
+
+/-- A request of child `c` of `ca` that was processed (success or failure). -/
+def Ev.childRequestOf (e : Ev) (ca c : String) : Bool :=
+  match e with
+  | .childRequest ca' c' _ _ _ => ca' = ca && c' = c
+  | _ => false
+
 /-! ### Composite manager functions: which events one call produces -/
 
 /-- The publication server's content for one publisher as the CA's list query sees it, and how a
@@ -462,5 +555,46 @@ def inSyncB (p m : List File) : Bool :=
 
 /-- No URI listed twice. -/
 def noDupUris (l : List File) : Bool := l.all fun e => (entries l e.1).length == 1
+
+/-! ## The CA's status store next to the publication server (for `published = server content`) -/
+
+/-- The status store together with what the publication server holds for the same CA
+(`none`: the server does not know the publisher). -/
+structure World where
+  store  : Store := {}
+  server : Option (List File) := some []
+deriving Repr, Inhabited
+
+inductive WEv where
+  /-- `ca_repo_sync` of this CA with the given objects -/
+  | sync (objects : List File) (now : Nat)
+  /-- anything else the CA manager does with the status store -/
+  | other (e : Ev)
+  /-- out of band, at the server: the publisher is removed (its content is dropped) -/
+  | publisherRemoved
+  /-- out of band, at the server: the publisher is added (again), without content -/
+  | publisherAdded
+deriving Repr, Inhabited
+
+def WEv.outOfBand : WEv → Bool
+  | .publisherRemoved => true
+  | .publisherAdded => true
+  | _ => false
+
+/-- An `other` event that claims to be a repository exchange of this CA (those only happen
+inside `sync`). -/
+def WEv.foreign (ca : String) : WEv → Bool
+  | .other e => e.touchesRepo ca
+  | _ => false
+
+def wstep (ca uri : String) (w : World) : WEv → World
+  | .sync objects now =>
+    let r := repoSyncEvents ca uri w.server objects "list-refused" "delta-refused" now
+    { store := run w.store r.1, server := r.2 }
+  | .other e => { w with store := step w.store e }
+  | .publisherRemoved => { w with server := none }
+  | .publisherAdded => { w with server := some (w.server.getD []) }
+
+def wrun (ca uri : String) (w : World) (hist : List WEv) : World := hist.foldl (wstep ca uri) w
 
 end KM.Status
